@@ -114,6 +114,65 @@ def d2(cx: Cx, ob: Ob) -> None:
                 for ev, _ in hs.walk():
                     if ev.kind == "bind" and ev.a == q[1] and is_const(ev.b) and isinstance(ev.b[1], (int, float)):
                         defaults.add(ev.b[1])
+    # the q value must be looked for among ALL parameters after the media range, not only the first one
+    part = ("param", hp.params[0].name)
+    from ..rules import Prov as _Prov
+
+    hprov = _Prov(hs)
+
+    def unwrap(x):
+        while True:
+            if op(x) == "call" and op(x[1]) == "attr" and x[1][2] in ("strip", "lower", "casefold", "lstrip", "rstrip") and not x[2]:
+                x = x[1][1]
+            else:
+                return x
+
+    def param_source(x, depth=0):
+        """'all' if x ranges over every ';'-separated parameter of the part, 'first' if it is a fixed one, None if unknown."""
+        x = unwrap(x)
+        if depth > 6:
+            return None
+        if op(x) == "bv" and x[1] in hprov.binders:
+            src = hprov.binders[x[1]][0]
+            while True:
+                if op(src) == "slice" and is_const(src[3], None):
+                    src = src[1]
+                elif op(src) == "comp" and len(src[3]) == 1 and unwrap(src[2]) == src[3][0][0]:
+                    src = src[3][0][1]
+                elif op(src) == "call" and src[1] in (("builtin", "list"), ("builtin", "tuple"), ("builtin", "iter")) and len(src[2]) == 1:
+                    src = src[2][0]
+                elif op(src) == "new" and len(src) > 4:
+                    src = src[4]
+                else:
+                    break
+            if op(src) == "call" and op(src[1]) == "attr" and src[1][2] == "split" and unwrap(src[1][1]) == part and src[2] == (("const", ";"),) and not src[3]:
+                return "all"
+            if op(src) == "call" and op(src[1]) == "attr" and src[1][2] == "split" and src[2] == (("const", ";"),):
+                return param_source(src[1][1], depth + 1) and "all" if unwrap(src[1][1]) != part else "all"
+            return None
+        if op(x) == "item" and op(x[1]) == "call" and op(x[1][1]) == "attr" and x[1][1][2] in ("partition", "split", "rpartition") and unwrap(x[1][1][1]) == part and x[1][2][:1] == (("const", ";"),):
+            return "first"
+        return None
+
+    for t_, ev_, ctx_ in hs.all_terms():
+        for x in subterms(t_):
+            if op(x) == "call" and x[1] == ("builtin", "float") and len(x[2]) == 1:
+                v = unwrap(x[2][0])
+                holder = None
+                if op(v) == "item" and op(v[1]) == "call" and op(v[1][1]) == "attr" and v[1][1][2] in ("partition", "split") and v[1][2][:1] == (("const", "="),):
+                    holder = v[1][1][1]
+                if holder is None:
+                    continue
+                src = param_source(holder)
+                ob.site(f"{where(hp, ev_.line)} {hp.qualname}", f"q value read from {show(holder)[:40]} ({src or 'unrecognised'})")
+                if src == "first":
+                    ob.violate(
+                        hp.qualname,
+                        where(hp, ev_.line),
+                        "_handle_part looks for q only in the first parameter after the media range: with another media type parameter in front (`text/csv;header=present;q=0.2`) the weight is lost and the range counts as q=1.0",
+                        witness="'text/csv;header=present;q=0.2, application/sparql-results+json;q=0.9' negotiates CSV",
+                        detail="first-parameter-only",
+                    )
     ob.site(f"{hp.where} {hp.qualname}", f"default q {sorted(defaults)}")
     if defaults and defaults != {1.0} and defaults != {1}:
         ob.violate(hp.qualname, hp.where, f"a media type without q parameter gets q={sorted(defaults)}, not 1.0", detail="default-q")
